@@ -17,7 +17,7 @@ func init() {
 		Level: "fault_enumeration",
 		Rule: "seeded batches of 1..40 calls (get/put/delete/append/increment) over 1..5 regions on 1..3 servers, queue size " +
 			"{1,2,5,100}; each call follows an outcome script across attempts over {ok, fatal, retry-later, region-not-serving, " +
-			"connection dies before execution, connection dies after execution}; invalid entries (other table, duplicate call, " +
+			"connection dies before execution, connection dies after execution, per-action server-aborted exception}; invalid entries (other table, duplicate call, " +
 			"non-batchable call) at every position; table dropped between rounds; cancellations. Judged on the server-side " +
 			"log: nothing sent for invalid batches, executions only by the owning region, first presentation per region in " +
 			"batch order, re-sent subsets in batch order, no arrival after a delivered success or fatal error. distinct = " +
@@ -31,7 +31,7 @@ func init() {
 		},
 		Floors: func(tier string) map[string]int64 {
 			return map[string]int64{"batches": 250, "actions_arrived": 2000, "region_order_checks": 400, "rejected_batches_no_frames": 30,
-				"retries_after_retry": 100, "retries_after_nsre": 100, "retries_after_dead-before": 100, "retries_after_dead-after": 100,
+				"retries_after_retry": 100, "retries_after_nsre": 100, "retries_after_dead-before": 100, "retries_after_dead-after": 100, "retries_after_abort": 80,
 				"multi_region_batches": 100}
 		},
 		Run: runC12,
